@@ -59,14 +59,27 @@ def mutate(rng, data, nops=None, utf8_only=False):
         if not b:
             b = bytearray(b"fn x() {}\n")
         op = rng.choice(["bitflip", "truncate", "randrange", "multibyte", "multibyte_before_bang", "dup", "snippet", "snippet",
-                         "crlf", "delete", "multibyte_in_macro_line"])
-        if utf8_only and op in ("bitflip", "randrange"):
+                         "crlf", "delete", "multibyte_in_macro_line", "bad_utf8_tail", "bad_utf8_mid"])
+        if utf8_only and op in ("bitflip", "randrange", "bad_utf8_tail", "bad_utf8_mid"):
             op = "snippet"
         ops.append(op)
         if op == "bitflip":
             for _j in range(rng.choice([1, 1, 4, 16])):
                 i = rng.randrange(len(b))
                 b[i] ^= 1 << rng.randrange(8)
+        elif op in ("bad_utf8_tail", "bad_utf8_mid"):
+            # an incomplete / malformed UTF-8 sequence: a proper prefix of a 2-4 byte character, a lone continuation
+            # byte, an overlong form, a surrogate, a byte that can never occur
+            enc = rng.choice(MULTI + ["日", "𝔘", "é"]).encode("utf-8")
+            frag = rng.choice([enc[:rng.randrange(1, len(enc))] if len(enc) > 1 else b"\xc3", b"\x80", b"\xbf\xbf", b"\xc0\xaf",
+                               b"\xed\xa0\x80", b"\xff", b"\xf8\x88\x80\x80\x80", b"\xe6\x97", b"\xf0\x9f\x98"])
+            if op == "bad_utf8_tail":
+                if rng.random() < 0.5:
+                    del b[_boundary(b, rng.randrange(len(b) + 1)):]
+                b += frag
+            else:
+                i = _boundary(b, rng.randrange(len(b) + 1))
+                b[i:i] = frag
         elif op == "truncate":
             cut = rng.randrange(len(b) + 1)
             if utf8_only:
